@@ -92,7 +92,12 @@ macro_rules! impl_run {
         fn $name(op: &Op, r: &mut H263Reader<Trickle>, out: &mut Vec<String>) -> bool {
             match op {
                 Op::Pk(n) => { let x = r.peek_bits::<$u>(*n); out.push(show(&x)); x.is_err() }
-                Op::Rd(n) => { let x = r.read_bits::<$u>(*n); out.push(show(&x)); x.is_err() }
+                // an 8-bit read goes through `read_u8` (documented as the same thing): the decoder reads INTRADC and PSUPP with it
+                Op::Rd(n) => {
+                    let x = if *n == 8 { r.read_u8().map(|v| v as $u) } else { r.read_bits::<$u>(*n) };
+                    out.push(show(&x));
+                    x.is_err()
+                }
                 Op::Sk(n) => { let x = r.skip_bits(*n).map(|_| String::new()); out.push(show(&x)); x.is_err() }
                 Op::Ps(n) => { let x = r.peek_signed_bits::<$u>(*n).map(|v| v as $i); out.push(show(&x)); x.is_err() }
                 Op::Rs(n) => { let x = r.read_signed_bits::<$u>(*n).map(|v| v as $i); out.push(show(&x)); x.is_err() }
